@@ -107,10 +107,8 @@ Print Assumptions anchor_ds_authentic.
                    [chain_sound_depth], [referral_ds_authentic]);
      store       — DNSKEY answers in the store went through verifyDNSSEC ([chain_sound]); a DS answer stored
                    WITH AD is authentic (this theorem, one level down);
-     F9          — the ONLY thing the code does not supply: when findDS fetches the DS RRset for a signer other
-                   than the owner of the DS set in hand, the answer it takes it from carried AD.
-   [answer_ad_sound_needs_ds_provenance_refuted] shows the F9 hypothesis cannot be dropped (finding
-   unsigned-ds-trust-link, DESIGN §6 F9, still open). *)
+   Since the repair of finding unsigned-ds-trust-link (F9) the code supplies the rest itself: findDS drops a DS RRset
+   taken from a sub-query answer that does not carry AD ([trust_link_provenance]). *)
 Theorem answer_ad_sound : forall (honest : name -> N -> Prop) (zsigned : name -> signed -> Prop) E qname qtype cd resp0 pds zone m,
   let resp := bailiwick zone resp0 in
   (forall z l, unforgeable (honest z) (zsigned z) l) ->
@@ -120,8 +118,6 @@ Theorem answer_ad_sound : forall (honest : name -> N -> Prop) (zsigned : name ->
   (forall z km, e_key E z = LMsg km -> forall k, In k (keys_of_msg z km) -> honest z (k_mat k)) ->
   (forall z dm, e_ds E z false = LMsg dm -> m_ad dm = true ->
      forall d k, In d (extract (m_ans dm) (Some z) T_DS) -> ds_binds d k -> honest z (k_mat k)) ->
-  (forall s d rest dm, pds = d :: rest -> r_owner d <> s -> e_ds E s false = LMsg dm ->
-     extract (m_ans dm) (Some s) T_DS <> [] -> m_ad dm = true) ->
   dname_target resp = None ->
   validate_answer E qname qtype cd resp0 pds zone = Accept m -> m_ad resp0 = false -> m_ad m = true ->
   exists s, in_zone qname s = true /\
@@ -132,17 +128,16 @@ Theorem answer_ad_sound : forall (honest : name -> N -> Prop) (zsigned : name ->
 Proof. exact answer_ad_sound_min_lemma. Qed.
 Print Assumptions answer_ad_sound.
 
-(* ... without that hypothesis — "AD=1 ⇒ the DS set that authenticated the signer's keys is the inherited one,
-   the anchor's, or comes from a sub-query answer that was itself authenticated" ([answer_ad_sound_statement]) —
-   the statement is FALSE of the code (finding unsigned-ds-trust-link, still open): *)
-Theorem answer_ad_sound_needs_ds_provenance_refuted : ~ answer_ad_sound_statement.
-Proof. exact answer_ad_sound_refuted_lemma. Qed.
-Print Assumptions answer_ad_sound_needs_ds_provenance_refuted.
+(* every non-empty DS set findDS hands to verifyDNSSEC is the inherited one, the anchors', or comes from a sub-query
+   answer that was itself authenticated (was refuted before the F9 repair) *)
+Theorem trust_link_provenance : forall E s qname pds ds,
+  find_ds E (Some s) qname pds false = Ok ds -> ds <> [] -> ds_provenance_ok E s pds ds.
+Proof. exact trust_link_provenance_lemma. Qed.
+Print Assumptions trust_link_provenance.
 
 (* unconditionally: AD=1 ⇒ not CD, an anchor exists, some RRSIG names an ancestor signer, a non-empty DS
    set was found for it, verifyDNSSEC accepted the response under it, and every wildcard expansion
-   carries an authenticated next-closer denial.  (Missing for the unconditional full statement: provenance
-   of that DS set — F9.) *)
+   carries an authenticated next-closer denial.  (The provenance of that DS set: [trust_link_provenance].) *)
 Theorem answer_ad_partial : forall E qname qtype cd resp0 pds zone m,
   let resp := bailiwick zone resp0 in
   dname_target resp = None ->
@@ -241,7 +236,7 @@ Theorem insecure_child_needs_proof : forall E resp q pds zone,
   (exists s dss k b, verify_dnssec E s resp dss = (true, None) /\ e_orc E k (m_id resp) q s = OOk b) \/
   (exists ins, authenticated_delegation_ds E (parent_signer zone) q eds = Ok ([], ins)) \/
   (exists s, In s (find_signers (e_nrank E) (m_ns resp) q false) /\ in_zone q s = true /\
-     ((find_ds E (Some s) q eds false = Ok [] /\ is_zone_secure E q eds zone = false) \/
+     ((find_ds E (Some s) q eds false = Ok [] /\ unsigned_is_bogus E q eds zone = false) \/
       exists dss, find_ds E (Some s) q eds false = Ok dss /\ dss <> [] /\ verify_dnssec E s resp dss = (false, None))).
 Proof. exact insecure_child_needs_proof. Qed.
 Print Assumptions insecure_child_needs_proof.
@@ -336,3 +331,7 @@ Example before_d62d15b_any_key_could_sign_the_dnskey_rrset : ~ chain_sound_state
 Proof. exact old_variant_refuted. Qed.
 Example current_code_rejects_that_witness : verify_dnssec E0 zn forged_keys ds_parent = (false, Some EMissingDNSKEY).
 Proof. exact current_rejects_witness. Qed.
+
+(* the witness that refuted answer_ad_sound before the F9 repair is refused now *)
+Example f9_witness_is_refused : validate_answer E9 q 1 false forged pds (Some p) = Fail EDSRecords.
+Proof. exact f9_witness_refused. Qed.
